@@ -98,7 +98,12 @@ def step (st : St) (line : String) : St × List String :=
       else if recv.any (fun r => !r.same) then (st, [s!"spec {id} delivered-bytes-altered a subscriber received bytes other than the published VAA"])
       else if recv.map (·.id) ≠ st.subs.map (·.1) then (st, [s!"diff {id} live subscriptions model={st.subs.map (·.1)} impl={recv.map (·.id)}"])
       else
-      match d with
+      -- "the VAA's emitter chain and address": what the decoder says, and for a VAA the harness BUILT (Marshal of a value with a
+      -- non-empty payload and at most 255 signatures, which C05 says decodes to an equal VAA) the emitter it was built with —
+      -- a decoder that rejects such bytes does not take the VAA out of the statement
+      let built : Decoded := if kv rest "ep" = some "1" then none else ((kv rest "em" >>= parseDec).getD none)
+      let dSpec : Decoded := match d with | some x => some x | none => built
+      match dSpec with
       | some (c, a) =>
         -- Spec (statement): delivered to every subscriber with no filters or a matching filter, and to no other
         let missing := st.subs.filter fun (sid, f) => subMatches f c a && cnt sid == 0
@@ -161,8 +166,13 @@ def step (st : St) (line : String) : St × List String :=
         -- Spec: "A subscriber that stops reading or disconnects does not prevent delivery to the other subscribers,
         -- nor the registration and removal of subscriptions."
         let bad := ["pub", "reg", "rem", "bgot", "arem"].filter fun k => g k ≠ "done" && g k ≠ "n/a"
-        if bad.isEmpty then (st, [s!"ok {id}"])
-        else (st, [s!"spec {id} publish-blocked-by-stalled-subscriber variant={g "variant"} filterA={g "filterA"}: with one subscriber not reading, after {g "through"} publishes, within {g "deadline_ms"} ms: next-publish={g "pub"} registration={g "reg"} removal-of-another={g "rem"} delivery-to-reader={g "bgot"} removal-of-stalled={g "arem"}"])
+        -- a weaker consequence of the same sentence, kept as its own clause: once the stalled subscriber's client reads again (or
+        -- has disconnected) everything that was held up completes — a stall must not turn into a permanent deadlock
+        let recov := if g "recovered" = "0" then
+            [s!"spec {id} not-recovered-after-subscriber-resumes variant={g "variant"} filterA={g "filterA"}: the subscriber's client resumed reading / disconnected, yet within {g "deadline_ms"} ms the held-up Publish or a subscription handler did not finish (next-publish={g "pub"})"]
+          else []
+        if bad.isEmpty then (st, if recov.isEmpty then [s!"ok {id}"] else recov)
+        else (st, recov ++ [s!"spec {id} publish-blocked-by-stalled-subscriber variant={g "variant"} filterA={g "filterA"}: with one subscriber not reading, after {g "through"} publishes, within {g "deadline_ms"} ms: next-publish={g "pub"} registration={g "reg"} removal-of-another={g "rem"} delivery-to-reader={g "bgot"} removal-of-stalled={g "arem"}"])
   | "spyslow" :: id :: rest =>
     let st := { st with n := st.n + 1 }
     match kv rest "setup" with
